@@ -39,6 +39,19 @@ type Change struct {
 	Meta  []MetaVar `json:"meta,omitempty"`
 	Kind  string    `json:"kind"` // expr | stmts | decl
 	Lines []Line    `json:"lines"`
+	// Package clause: PkgMinus guards the file's package, PkgPlus (if different) renames it.
+	// A clause on a context line has both set to the same name.
+	PkgMinus string `json:"pkg_minus,omitempty"`
+	PkgPlus  string `json:"pkg_plus,omitempty"`
+	// Import lines of the change.
+	Imports []Import `json:"imports,omitempty"`
+}
+
+// Import is one import line of a change.
+type Import struct {
+	Tag  string `json:"tag"`            // " ", "-", "+"
+	Name string `json:"name,omitempty"` // "", a literal name, ".", "_", or the name of an identifier metavariable
+	Path string `json:"path"`
 }
 
 // L builds lines from strings whose first byte is the tag.
@@ -67,6 +80,28 @@ func (c *Change) Render() string {
 		fmt.Fprintf(&b, "var %s %s\n", m.Name, m.Kind)
 	}
 	b.WriteString("@@\n")
+	switch {
+	case c.PkgMinus != "" && c.PkgMinus == c.PkgPlus:
+		b.WriteString(" package " + c.PkgMinus + "\n\n")
+	case c.PkgMinus != "" || c.PkgPlus != "":
+		if c.PkgMinus != "" {
+			b.WriteString("-package " + c.PkgMinus + "\n")
+		}
+		if c.PkgPlus != "" {
+			b.WriteString("+package " + c.PkgPlus + "\n")
+		}
+		b.WriteString("\n")
+	}
+	for _, im := range c.Imports {
+		if im.Name != "" {
+			fmt.Fprintf(&b, "%simport %s %q\n", im.Tag, im.Name, im.Path)
+		} else {
+			fmt.Fprintf(&b, "%simport %q\n", im.Tag, im.Path)
+		}
+	}
+	if len(c.Imports) > 0 {
+		b.WriteString("\n")
+	}
 	for _, l := range c.Lines {
 		b.WriteString(l.Tag + dotsRe.ReplaceAllString(l.Text, "...") + "\n")
 	}
@@ -238,6 +273,14 @@ func newBindings() *Bindings { return (&Bindings{}).clone() }
 
 type matcher struct {
 	meta map[string]string
+	init *Bindings // bindings made by import guards
+}
+
+func (m *matcher) fresh() *Bindings {
+	if m.init != nil {
+		return m.init.clone()
+	}
+	return newBindings()
 }
 
 func concrete(v reflect.Value) reflect.Value {
@@ -436,9 +479,66 @@ type Site struct {
 
 // Analysis of one (change, file) pair.
 type Analysis struct {
-	CC    *Compiled
-	File  *ast.File
-	Sites []*Site
+	CC         *Compiled
+	File       *ast.File
+	Sites      []*Site
+	GuardsHold bool
+}
+
+// Guards evaluates the package and import guards of the change on the file
+// (the table of property C10) and returns the bindings that import names
+// which are identifier metavariables receive.
+func (cc *Compiled) Guards(f *ast.File) (*Bindings, bool) {
+	b := newBindings()
+	c := cc.C
+	if c.PkgMinus != "" && c.PkgMinus != f.Name.Name {
+		return nil, false
+	}
+	for _, im := range c.Imports {
+		if im.Tag == "+" {
+			continue
+		}
+		var spec *ast.ImportSpec
+		for _, d := range f.Decls {
+			gd, ok := d.(*ast.GenDecl)
+			if !ok || gd.Tok != token.IMPORT {
+				continue
+			}
+			for _, s := range gd.Specs {
+				is := s.(*ast.ImportSpec)
+				if p, _ := strconv.Unquote(is.Path.Value); p == im.Path && spec == nil {
+					spec = is
+				}
+			}
+		}
+		if spec == nil {
+			return nil, false
+		}
+		isMeta := cc.meta[im.Name] == "identifier"
+		switch {
+		case im.Name == "": // unnamed matches only unnamed
+			if spec.Name != nil {
+				return nil, false
+			}
+		case isMeta: // any name or none
+			id := &ast.Ident{Name: im.Name}
+			if spec.Name != nil {
+				id = spec.Name
+			}
+			v := reflect.ValueOf(id)
+			if prev, ok := b.Vars[im.Name]; ok {
+				if prev.Interface().(*ast.Ident).Name != id.Name {
+					return nil, false
+				}
+			}
+			b.Vars[im.Name] = v
+		default: // literal name: exactly that name
+			if spec.Name == nil || spec.Name.Name != im.Name {
+				return nil, false
+			}
+		}
+	}
+	return b, true
 }
 
 // ParseFile parses a target file for the model.
@@ -450,6 +550,12 @@ func ParseFile(src []byte) (*ast.File, error) {
 func Analyze(cc *Compiled, f *ast.File) *Analysis {
 	a := &Analysis{CC: cc, File: f}
 	m := &matcher{meta: cc.meta}
+	init, ok := cc.Guards(f)
+	a.GuardsHold = ok
+	if !ok {
+		return a
+	}
+	m.init = init
 	var stack []int
 	var walk func(v reflect.Value, slot reflect.Type, path, slotKind string)
 	visitNode := func(v reflect.Value, slot reflect.Type, path, slotKind string) bool {
@@ -458,7 +564,7 @@ func Analyze(cc *Compiled, f *ast.File) *Analysis {
 		switch cc.C.Kind {
 		case "expr", "decl":
 			var found *Bindings
-			m.match(cc.Minus, v, newBindings(), func(b *Bindings) bool { found = b; return true })
+			m.match(cc.Minus, v, m.fresh(), func(b *Bindings) bool { found = b; return true })
 			if found != nil {
 				s = &Site{Node: v, B: found}
 			}
@@ -602,7 +708,7 @@ func (m *matcher) instances(pat, list reflect.Value) []Instance {
 		rest := list.Slice(off, list.Len())
 		var found *Instance
 		for lead := 0; lead <= rest.Len() && found == nil; lead++ {
-			m.matchPrefix(pat, rest, 0, lead, newBindings(), func(b *Bindings, end int) bool {
+			m.matchPrefix(pat, rest, 0, lead, m.fresh(), func(b *Bindings, end int) bool {
 				found = &Instance{Start: off + lead, End: off + end, B: b}
 				return true
 			})
@@ -680,6 +786,9 @@ func (a *Analysis) Rewrite(choice Choice) (*ast.File, error) {
 		return nil, r.err
 	}
 	f := out.Interface().(*ast.File)
+	if a.CC.C.PkgPlus != "" && len(a.Sites) > 0 {
+		f.Name = &ast.Ident{Name: a.CC.C.PkgPlus, NamePos: 1}
+	}
 	f.Comments = nil
 	f.Imports = nil
 	f.Unresolved = nil
